@@ -91,3 +91,58 @@ package keeper
 //@   ensures [stake-bin] old(global(codec.UpgradeFeatureMap)["RSCAL"] != 0 && ctxHeight(ctx) >= global(codec.UpgradeFeatureMap)["RSCAL"]) && old(valHas[bytes(address)]) ==> slashReq == scaled(nRTTM(ctx), old(bigv[challenges.i]), weightOf(binOf(old(valStake[bytes(address)]), nFloor(ctx), nCeil(ctx)), nExp(ctx), nWM(ctx)))
 //@   ensures [stake-bin-asbuilt] old(global(codec.UpgradeFeatureMap)["RSCAL"] != 0 && ctxHeight(ctx) >= global(codec.UpgradeFeatureMap)["RSCAL"]) && old(valHas[bytes(address)]) ==> slashReq == scaled(nRTTM(ctx), old(bigv[challenges.i]), weightOf(go_div(min(old(valStake[bytes(address)]) - old(valStake[bytes(address)]) % nFloor(ctx), nCeil(ctx) - old(valStake[bytes(address)]) % nFloor(ctx)), nFloor(ctx)), nExp(ctx), nWM(ctx)))
 //@   ensures [flat-rate] old(!(global(codec.UpgradeFeatureMap)["RSCAL"] != 0 && ctxHeight(ctx) >= global(codec.UpgradeFeatureMap)["RSCAL"])) ==> slashReq == nRTTM(ctx) * old(bigv[challenges.i])
+
+// ---- C23: edit-stake rules -----------------------------------------------------------------
+//@ pure featAt(key Str, h int) bool = global(codec.UpgradeFeatureMap)[key] != 0 && h >= global(codec.UpgradeFeatureMap)[key]
+//@ pure tm3() bool = global(codec.TestMode) <= 0 - 3
+//@ ghost valWaiting map[Bytes]bool
+
+//@ func (Keeper).IsWaitingValidator
+//@   trusted store lookup of the waiting-to-unstake marker
+//@   pure_fn
+//@   ensures result == valWaiting[bytes(valAddr)]
+
+//@ func (Keeper).StakeDenom
+//@   trusted parameter getter
+//@   pure_fn
+
+//@ func (Keeper).ValidateEditStake
+//@   props C23
+//@   ensures [no-decrease] result == nil ==> old(bigv[amount.i]) >= old(bigv[currentValidator.StakedTokens.i])
+//@   ensures [output-editor] result == nil && (featAt("NCUST", ctxHeight(ctx)) || tm3()) && (featAt("OEDIT", ctxHeight(ctx)) || tm3()) ==> currentValidator.OutputAddress == nil || addrEq(bytes(signer), bytes(currentValidator.OutputAddress)) || addrEq(bytes(newValidtor.OutputAddress), bytes(currentValidator.OutputAddress))
+//@   ensures [output-fixed] result == nil && (featAt("NCUST", ctxHeight(ctx)) || tm3()) && !(featAt("OEDIT", ctxHeight(ctx)) || tm3()) ==> currentValidator.OutputAddress == nil || addrEq(bytes(newValidtor.OutputAddress), bytes(currentValidator.OutputAddress))
+//@   ensures [delegators] result == nil && (featAt("NCUST", ctxHeight(ctx)) || tm3()) && (featAt("RewardDelegators", ctxHeight(ctx)) || tm3()) ==> sameMap(ref(currentValidator.RewardDelegators), ref(newValidtor.RewardDelegators)) || addrEq(bytes(signer), bytes(currentValidator.Address))
+//@   ensures [not-waiting] result == nil && (featAt("NCUST", ctxHeight(ctx)) || tm3()) ==> !valWaiting[bytes(currentValidator.Address)]
+
+// call event: the record handed to SetValidator (the write of the node record)
+//@ ghost lastSetVal x/nodes/types.Validator
+//@ ghost lastSetValStake int
+//@ func (Keeper).SetValidator
+//@   trusted call event only: records the validator written (store + codec effects are not modelled here)
+//@   modifies lastSetVal, lastSetValStake
+//@   ensures lastSetVal == validator && lastSetValStake == old(bigv[validator.StakedTokens.i])
+
+//@ func (Keeper).deleteValidatorFromStakingSet
+//@   trusted KV-store effect only (index maintenance, see C21): no Go object visible to the caller is modified
+//@ func (Keeper).deleteValidatorForChains
+//@   trusted KV-store effect only (index maintenance, see C21): no Go object visible to the caller is modified
+//@ func (Keeper).DeleteValidator
+//@   trusted KV-store effect only: no Go object visible to the caller is modified
+//@ func (Keeper).SetStakedValidatorByChains
+//@   trusted KV-store effect only (index maintenance, see C21): no Go object visible to the caller is modified
+//@ func (Keeper).ResetValidatorSigningInfo
+//@   trusted KV-store effect only: no Go object visible to the caller is modified
+//@ func (Keeper).coinsFromUnstakedToStaked
+//@   trusted bank transfer (see C19): KV-store effect only, no Go object visible to the caller is modified
+
+// EditStakeValidator: the record written keeps address, key, jailed flag, status and unstaking
+// time; the stake is the larger of current and requested; output address / delegators follow
+// the feature flags; chains and service URL are taken from the message.
+//@ func (Keeper).EditStakeValidator
+//@   props C23
+//@   modifies all
+//@   ensures [identity] result == nil ==> lastSetVal.Address == currentValidator.Address && lastSetVal.PublicKey == currentValidator.PublicKey && lastSetVal.Jailed == currentValidator.Jailed && lastSetVal.Status == currentValidator.Status && lastSetVal.UnstakingCompletionTime == currentValidator.UnstakingCompletionTime
+//@   ensures [stake] result == nil ==> lastSetValStake == max(old(bigv[currentValidator.StakedTokens.i]), old(bigv[amount.i]))
+//@   ensures [output-pre-ncust] result == nil && !(featAt("NCUST", ctxHeight(ctx)) || tm3()) ==> lastSetVal.OutputAddress == currentValidator.OutputAddress
+//@   ensures [output-kept] result == nil && (featAt("NCUST", ctxHeight(ctx)) || tm3()) && !(featAt("OEDIT", ctxHeight(ctx)) || tm3()) && currentValidator.OutputAddress != nil ==> lastSetVal.OutputAddress == currentValidator.OutputAddress
+//@   ensures [delegators-kept] result == nil && !((featAt("NCUST", ctxHeight(ctx)) || tm3()) && (featAt("RewardDelegators", ctxHeight(ctx)) || tm3())) ==> lastSetVal.RewardDelegators == currentValidator.RewardDelegators
